@@ -3,6 +3,7 @@
 mod colls;
 mod gen;
 mod inject;
+mod hexh;
 mod keys;
 mod oracle;
 mod rng;
@@ -113,6 +114,14 @@ fn main() {
                 };
                 random_mapset(&mut out, suite, &mut rng, &cfg);
             }
+            if !arena_mode() {
+                // every history of up to 7 (thorough: 8) operations over three keys, lookups included
+                let d = if thorough { 8 } else { 7 };
+                let (n, f) = hexh::history_exhaustive(&mut out, suite, 3, d, 8);
+                extra.push(("history_exhaustive_depth".into(), d.to_string()));
+                extra.push(("history_exhaustive_histories".into(), n.to_string()));
+                extra.push(("history_exhaustive_failed".into(), f.to_string()));
+            }
         }
         "key" | "klist" => {
             let (u, tmax, cap) = if thorough { (3, 3, 400000) } else { (2, 3, 6000) };
@@ -131,6 +140,13 @@ fn main() {
                     cap: [0usize, 1, 8, 9, 64, if arena_mode() { 16 } else { 1000 }][h % 6], variant: 0, profile: (h % 4) as u32,
                 };
                 random_key(&mut out, suite, &mut rng, &cfg);
+            }
+            if !arena_mode() {
+                let d = if thorough { 7 } else { 6 };
+                let (n, f) = hexh::history_exhaustive(&mut out, suite, 3, d, 8);
+                extra.push(("history_exhaustive_depth".into(), d.to_string()));
+                extra.push(("history_exhaustive_histories".into(), n.to_string()));
+                extra.push(("history_exhaustive_failed".into(), f.to_string()));
             }
         }
         "seg" => {
